@@ -3,6 +3,7 @@ package main
 // TB helpers: functional-option constructors, variadic call sites, cobra flag registrations.
 
 import (
+	"fmt"
 	"go/constant"
 	"go/token"
 	"go/types"
@@ -401,4 +402,37 @@ func fieldVarOfLoad(v ssa.Value) *types.Var {
 		}
 	}
 	return nil
+}
+
+// checkFlagFieldsReadOnly: an options field bound to a CLI flag holds what the user wrote - the only
+// writer is the flag library. A store by repository code (trimming, rounding, "normalising" the value
+// between registration and use) silently changes the request.
+func checkFlagFieldsReadOnly(p *Prog, r *Report, rule string, want func(fr FlagReg) bool) int {
+	n := 0
+	seen := map[string]bool{}
+	for _, fr := range p.FlagTable() {
+		if fr.Field == nil || !want(fr) {
+			continue
+		}
+		key := "flag --" + fr.Name + "/" + fr.Field.Name() + "/written-only-by-flag-parsing@" + FuncName(fr.Call.Parent())
+		if seen[key] {
+			continue
+		}
+		seen[key] = true
+		n++
+		stores := p.StoresToField(fr.Field)
+		why := ""
+		if len(stores) > 0 {
+			why = fmt.Sprintf("%d store(s) by repository code, e.g. value %s in %s", len(stores), (*Seg)(nil).term(stores[0], 0), storeParent(stores[0]))
+		}
+		r.Check(len(stores) == 0, rule, key, p.Pos(fr.Call.Pos()), "the options field bound to --"+fr.Name+" is written only by flag parsing (the value used is the value the user wrote)", why)
+	}
+	return n
+}
+
+func storeParent(v ssa.Value) string {
+	if in, ok := v.(ssa.Instruction); ok && in.Parent() != nil {
+		return FuncName(in.Parent())
+	}
+	return "?"
 }
